@@ -29,7 +29,7 @@ def sh(cmd, cwd=None, env=ENV, timeout=3000):
 
 meta = {"name": name, "property": prop, "source": src, "ran": []}
 sh("git -C /repo worktree remove --force %s" % repo)
-rc, out = sh("git -C /repo worktree add -q --detach %s HEAD" % repo)
+rc, out = sh("git -C /repo worktree add -q --detach %s %s" % (repo, os.environ.get("EVAL_BASE", "HEAD")))   # EVAL_BASE: an earlier commit of /repo
 assert rc == 0, out
 try:
     notes = open(os.path.join(src, "notes.md")).read() if os.path.exists(os.path.join(src, "notes.md")) else ""
